@@ -162,7 +162,11 @@ def check_fn(h, evs, B):
         fresh = reals.get(base + 100 + k)
         second = reals.get(base + 500 + k)
         if lived is None or fresh is None:
-            raise Harness("missing REAL events for history %d step %d" % (h["id"], k))
+            bad = [c for c in children if c.get("status") not in (0, None) or not c.get("exited", 1)]
+            if bad:
+                B.F.violation("C11:caller-died:status%s" % bad[0].get("status"), "a process of the history ended abnormally (exit status %s) before step %d was made" % (bad[0].get("status"), k), dict(wit, children=bad[:3]))
+                return
+            raise Harness("missing REAL events for history %d step %d (children: %s)" % (h["id"], k, [(c.get("status"), c.get("signal"), c.get("timeout")) for c in children]))
         a, b = norm(lived), norm(fresh)
         B.count("steps")
         if b:
